@@ -245,6 +245,10 @@ class ReplacementFrontend(ConstrainedFrontend):
         return super()._concrete_constraint(e)
 
     def _add(self, constraints, invalidate_cache=True):
+        # constraints a replacement was just learnt from: they must reach the actual frontend as they are, replacing
+        # them would turn them into `true` (x == 5 becomes 5 == 5) and the fact would be lost for everything the
+        # actual frontend already holds
+        defining = set()
         if self._auto_replace:
             for c in constraints:
                 # the badass thing here would be to use the *replaced* constraint, but
@@ -256,13 +260,16 @@ class ReplacementFrontend(ConstrainedFrontend):
                     continue
 
                 if not self._complex_auto_replace:
+                    old = new = None
                     if rc.op == "Not":
-                        self.add_replacement(
-                            c.args[0], claripy.false(), replace=False, promote=True, invalidate_cache=True
-                        )
+                        old, new = c.args[0], claripy.false()
                     elif rc.op == "__eq__" and rc.args[0].symbolic ^ rc.args[1].symbolic:
                         old, new = rc.args if rc.args[0].symbolic else rc.args[::-1]
+                    if old is not None:
+                        known = old.hash() in self._replacements
                         self.add_replacement(old, new, replace=False, promote=True, invalidate_cache=True)
+                        if not known and old.hash() in self._replacements:
+                            defining.add(c.hash())
                 else:
                     satisfiable, replacements = backends.vsa.constraint_to_si(rc)
                     if not satisfiable:
@@ -278,7 +285,7 @@ class ReplacementFrontend(ConstrainedFrontend):
                         self.add_replacement(old, rold.intersection(new))
 
         added = super()._add(constraints)
-        cr = self._replace_list(added)
+        cr = tuple(c if c.hash() in defining else self._replacement(c) for c in added)
         if not self._allow_symbolic and any(c.symbolic for c in cr):
             raise ClaripyFrontendError(
                 "symbolic constraints made it into ReplacementFrontend with allow_symbolic=False"
